@@ -8,8 +8,52 @@ def run(chk):
         expl, kw = c08.run(chk, parts=('L2', 'L2b'))
     finally:
         c08.PREFIX = 'C08'
+    lines_rule(chk)
     chk.undecide('crash-freedom of rendering: erg_common::error::format_context computes `ln_end - ln_begin` unchecked; it traps only if a Location with ln_end < ln_begin '
                  'is constructible, which is not established statically, so it is not reported')
     return ('A diagnostic location is built from token positions (Location::concat of token locs), so a drifting token column is a drifting caret: the column rules of the lexer '
             '(consumed vs appended characters per escape arm; column arithmetic in characters) decide the clause "locations after string escapes on the same line". '
             'That a location covers the construct it names, and crash-freedom of rendering, are not decided.'), {}
+
+
+def lines_rule(chk):
+    """the renderer and the lexer agree on what a line is"""
+    from sa import facts as F, tree as T
+    fx = F.Facts()
+    IO = 'crates/erg_common/io.rs'
+    chk.rule('C24-lines', 'the source lines shown in a diagnostic are counted like the lexer counts them: Lexer::new / Lexer::from_str pass the text through normalize_newline (a lone `\\r` '
+                          'is a line break), so every place of Input::reread_lines that splits source text into lines (`.lines()` / `.split(..)`) splits normalized text — otherwise '
+                          '`x = 1\\ry = foo` is reported on a line the renderer does not have')
+    lexn = 0
+    for nm in ('Lexer::new', 'Lexer::from_str'):
+        f = fx.fn('crates/erg_parser/lex.rs', nm)
+        if any(T.last_seg(T.callee(c) or '') == 'normalize_newline' for c in T.calls(f['body'])):
+            lexn += 1
+    if not chk.need(lexn == 2, 'Lexer::new / Lexer::from_str no longer call normalize_newline (%d of 2)' % lexn):
+        return
+    f = fx.fn(IO, 'Input::reread_lines')
+    loc = {}
+    for n in T.walk(f['body']):
+        if n.get('k') == 'Let' and n.get('init') is not None:
+            for b in T.walk(n['pat']):
+                if b.get('k') == 'Bind':
+                    loc[b['id']] = n['init']
+
+    def normalized(e, seen=()):
+        for n in T.walk(e):
+            if n.get('k') in ('Call', 'MCall') and T.last_seg(T.callee(n) or n.get('n') or '') == 'normalize_newline':
+                return True
+            if n.get('k') == 'Local' and n.get('id') in loc and n['id'] not in seen and normalized(loc[n['id']], seen + (n['id'],)):
+                return True
+        return False
+    sites = 0
+    for c in T.calls(f['body']):
+        if c.get('k') == 'MCall' and c['n'] in ('lines', 'split', 'split_terminator', 'split_inclusive'):
+            sites += 1
+            key = 'split#%d' % sites
+            if normalized(c['r']):
+                chk.ok('C24-lines', key, sample=T.show(c)[:80])
+            else:
+                chk.bad('C24-lines', 'Input::reread_lines', key, 'Input::reread_lines splits `%s` into lines without normalize_newline: after a lone carriage return the lexer is one line '
+                        'ahead of the renderer, the diagnostic shows an empty or a wrong source line' % T.show(c['r'])[:60], IO, c.get('l'))
+    chk.floor('C24 line-splitting sites in reread_lines', sites, 2)
